@@ -98,10 +98,26 @@ def deviations(info, seed):
     return devs
 
 
-def option_sets(info, tier, seed, pairs):
-    """default + every single deviation (+ every compatible pair when `pairs`)."""
+def base_options(info):
+    """fonts whose features are outside the default --layout-features list (the AOTS fonts use
+    the tag 'test') get layout_features='*' as their base configuration: under the plain default
+    every lookup of such a font is dropped and nothing about closure would be exercised."""
+    tags = info.feats["GSUB"] | info.feats["GPOS"]
+    if tags and not (tags & set(DEFAULT_FEATURES)):
+        return "features=*", {"layout_features": ["*"]}
+    return "default", {}
+
+
+def option_sets(info, tier, seed, pairs, base=False):
+    """default + every single deviation (+ every compatible pair when `pairs`); with `base`,
+    deviations are applied on top of base_options(info)."""
     devs = deviations(info, seed)
     out = [("default", {})]
+    if base:
+        bname, bkw = base_options(info)
+        if bkw:
+            out.append((bname, bkw))
+            devs = [(bname + "&" + n, dict(bkw, **k)) for n, k in devs if not (set(k) & set(bkw))] + [(n, k) for n, k in devs if set(k) & set(bkw) and k != bkw]
     out += devs
     if pairs:
         for (n1, k1), (n2, k2) in itertools.combinations(devs, 2):
@@ -156,6 +172,7 @@ class FontInfo:
                 known.add(tag)
         self.unknown_tables = sorted(self.tables - known - {"GlyphOrder"} - {x for x in self.tables if x.strip() in DEFAULT_DROP})
         self.producers, self.nested = substitution_producers(font)
+        self.multi_nested = has_multi_record_rules(font)
         self.has_subrs = cff_has_subrs(font)
         self.post_names = "CFF " in font or ("post" in font and font["post"].formatType in (1.0, 2.0))
         self.varstore_items = gdef_varstore_items(font)
@@ -165,6 +182,7 @@ class FontInfo:
         self._hack_order = None
         self.components = component_map(font)
         self.colr_layers = colr_layer_map(font)
+        self.colr_desc = colr_description(font)
 
     def hack_order(self):
         """glyph names as the command line loader sees them (dontLoadGlyphNames)"""
@@ -180,6 +198,19 @@ class FontInfo:
             self.hbf.set_location(self.locs[li])
             gid = self.index[name]
             v = self._glyphs[k] = (self.hbf.outline(gid), self.hbf.h_advance(gid))
+        return v
+
+    def shape_traced(self, li, mode, fkey, feats, text):
+        """-> (result by names, names of all glyphs that were in the buffer at any lookup boundary)"""
+        k = ("t", li, mode, fkey, text)
+        v = self._shape.get(k)
+        if v is None:
+            self.hbf.set_location(self.locs[li])
+            seen = set()
+            res = hb_shape(self.hbf, text, feats, mode, trace=seen)
+            seen.update(g[0] for g in res)
+            names = [(self.order[g] if g < len(self.order) else "gid%d" % g, cl, xa, ya, xo, yo) for g, cl, xa, ya, xo, yo in res]
+            v = self._shape[k] = (names, frozenset(self.order[g] if g < len(self.order) else "gid%d" % g for g in seen))
         return v
 
     def shape(self, li, mode, fkey, feats, text):
@@ -331,6 +362,27 @@ def substitution_producers(font):
     return producers, nested
 
 
+def has_multi_record_rules(font):
+    """True if some GSUB contextual rule applies more than one nested lookup (glyphs may then
+    exist only in the middle of one lookup, where the HarfBuzz trace does not look)."""
+    if "GSUB" not in font or not font["GSUB"].table.LookupList:
+        return False
+    for lk in font["GSUB"].table.LookupList.Lookup:
+        for st in lk.SubTable:
+            st = getattr(st, "ExtSubTable", st)
+            if type(st).__name__ not in ("ContextSubst", "ChainContextSubst"):
+                continue
+            if st.Format == 3:
+                if len(st.SubstLookupRecord) > 1:
+                    return True
+            else:
+                rules = []
+                _collect_rules(st, rules)
+                if any(len(r.SubstLookupRecord) > 1 for r in rules):
+                    return True
+    return False
+
+
 def _collect_lookup_records(obj, out, seen=None):
     if seen is None:
         seen = set()
@@ -358,7 +410,7 @@ def _collect_lookup_records(obj, out, seen=None):
 
 
 # ---- HarfBuzz shaping with script / language choice ---------------------------------------------------
-def hb_shape(hbf, text, features, mode):
+def hb_shape(hbf, text, features, mode, trace=None):
     script, lang = mode
     buf = hb.Buffer()
     buf.add_str(text)
@@ -372,6 +424,13 @@ def hb_shape(hbf, text, features, mode):
     else:
         buf.language = "und"  # no language system tag: the default language system
     buf.cluster_level = hb.BufferClusterLevel.MONOTONE_CHARACTERS
+    if trace is not None:
+        # every glyph that is in the buffer before / after any lookup
+        def cb(_msg):
+            trace.update(i.codepoint for i in buf.glyph_infos)
+            return True
+
+        buf.set_message_func(cb)
     hb.shape(hbf.font, buf, features)
     return [(i.codepoint, i.cluster, p.x_advance, p.y_advance, p.x_offset, p.y_offset) for i, p in zip(buf.glyph_infos, buf.glyph_positions)]
 
@@ -424,7 +483,9 @@ def feature_dict(info, kw):
         feats[tag] = bool(gsub_on and (keep_all or tag in lf))
     for tag in info.feats["GPOS"]:
         on = bool(gpos_on and (keep_all or tag in lf))
-        feats[tag] = feats.get(tag, False) or on
+        if tag in feats and feats[tag] != on:
+            on = False  # a tag shared by GSUB and GPOS of which one table is dropped: off on both sides
+        feats[tag] = on
     if "kern" in info.tables:
         kern_table_kept = kw.get("legacy_kern", False) or "GPOS" not in info.tables
         if "kern" in drop:
@@ -593,12 +654,19 @@ def check_case(info, kind, req, optname, kw, rec, text_alpha, maxlen):
             if cp not in info.cm:
                 continue
             want = info.cm[cp]
-            gid = hb2.nominal(cp)
-            got = new_order[gid] if gid is not None and gid < n else None
+            if info.hbf.nominal(cp) is not None:
+                gid = hb2.nominal(cp)
+                got = new_order[gid] if gid is not None and gid < n else None
+            else:
+                # a subtable format HarfBuzz does not read (format 2): fontTools' reading of the saved font
+                got = new_order[sub_order.index(cm2[cp])] if cp in cm2 and cm2[cp] in sub_order else None
             if got is None and not notdef_glyph and want == new_order[0]:
                 got = want  # glyph id 0 cannot be the target of a cmap entry: see below
             if got != want:
-                rec.violation("request:character-missing" + tag, "%s: U+%04X maps to %r in the subset, %r in the original" % (where, cp, got, want))
+                cls = "request:character-missing"
+                if all(t.format == 0 for t in info.font["cmap"].tables if t.isUnicode() and cp in t.cmap):
+                    cls += ":only-in-format-0-subtable"
+                rec.violation(cls + tag, "%s: U+%04X maps to %r in the subset, %r in the original" % (where, cp, got, want))
             requested_glyphs.add(want)
         for (base, sel), g in info.uvs.items():
             if base in req and sel in req:
@@ -652,6 +720,7 @@ def check_case(info, kind, req, optname, kw, rec, text_alpha, maxlen):
     modes = shaping_modes(info, okw.get("layout_scripts", ["*"]))
     closure_on = okw.get("layout_closure", True) and "GSUB" not in drop
     compare_gsub = True
+    traced = False
     if not okw.get("layout_closure", True) and "GSUB" in info.tables and "GSUB" not in drop:
         # --no-layout-closure: rules whose products were not requested are removed, so texts may
         # legitimately shape differently.  The result is only comparable as a whole when the
@@ -663,13 +732,18 @@ def check_case(info, kind, req, optname, kw, rec, text_alpha, maxlen):
         rec.evals(1)
         same_rules = r2.new_order == r.new_order and TTFont(io.BytesIO(r2.data)).reader["GSUB"] == sub.reader["GSUB"]
         if not same_rules:
-            compare_gsub = False
             rec.witness("no-layout-closure: closure would have added glyphs")
-            feats = dict(feats)
-            for t in info.feats["GSUB"]:
-                if t not in info.feats["GPOS"]:
+            if info.multi_nested:
+                compare_gsub = False
+                feats = dict(feats)
+                for t in info.feats["GSUB"]:
                     feats[t] = False
-            fkey = tuple(sorted(feats.items()))
+                fkey = tuple(sorted(feats.items()))
+            else:
+                # a text is comparable when every glyph that is in HarfBuzz's buffer at any lookup
+                # boundary of the ORIGINAL shaping was kept: every rule that fired then only
+                # involves kept glyphs (inputs, products and context), so it must have been kept
+                traced = True
             extra = set(r.new_order) - set(r2.new_order)
             if len(r2.new_order) > len(r.new_order):
                 rec.witness("no-layout-closure: fewer glyphs than with closure")
@@ -679,7 +753,16 @@ def check_case(info, kind, req, optname, kw, rec, text_alpha, maxlen):
     if "GDEF" in drop and "GDEF" in info.tables:
         compare_pos = False
     space_issue = 0x20 in info.cm and 0x20 not in retained
+    # HarfBuzz synthesizes glyph classes from Unicode categories when a font has no GDEF glyph
+    # classes at all.  If no kept glyph has a class the subset legitimately has no GlyphClassDef
+    # (by the specification: every glyph is class 0, as before), but HarfBuzz then behaves
+    # differently for lookup flags and mark zeroing: such a subset is not comparable by shaping.
+    synthesized = info.hbf.face.has_layout_glyph_classes and not hb2.face.has_layout_glyph_classes and "GDEF" not in drop
+    if synthesized:
+        rec.witness("subset without glyph classes (HarfBuzz would synthesize): shaping not compared")
     alpha = [c for c in text_alpha if c in retained]
+    if maxlen < 0:
+        maxlen = -maxlen if len(alpha) <= 3 else -maxlen - 1
     used_glyphs = set()
     ntexts = 0
     mark_seen = False
@@ -690,7 +773,14 @@ def check_case(info, kind, req, optname, kw, rec, text_alpha, maxlen):
         for li in range(len(info.locs)):
             hb2.set_location(info.locs[li])
             for mode in modes:
-                a = info.shape(li, mode, fkey, feats, text)
+                if traced:
+                    a, seen_glyphs = info.shape_traced(li, mode, fkey, feats, text)
+                    if not all(g in new_index for g in seen_glyphs):
+                        rec.count("no-layout-closure: text uses rules over glyphs that were not requested (not compared)")
+                        continue
+                    rec.witness("no-layout-closure: text compared after tracing the original's lookups")
+                else:
+                    a = info.shape(li, mode, fkey, feats, text)
                 b = hb_shape(hb2, text, feats, mode)
                 ntexts += 1
                 missing = [g[0] for g in a if g[0] not in new_index]
@@ -699,6 +789,8 @@ def check_case(info, kind, req, optname, kw, rec, text_alpha, maxlen):
                     via = sorted({"S%d" % t for g in missing for (t, _li) in info.producers.get(g, ())}) or ["?"]
                     rec.violation("closure:shaped-glyph-missing:" + "+".join(via) + tag,
                                   "%s: text %r (location %s, script/lang %s) shapes to %s in the original; %s not in the subset %s" % (where, text, info.locs[li], mode, [g[0] for g in a], missing, new_order[:14]))
+                    continue
+                if synthesized:
                     continue
                 bn = [(new_order[g] if g < n else "gid%d" % g, cl, xa, ya, xo, yo) for g, cl, xa, ya, xo, yo in b]
                 if [x[:2] for x in a] != [x[:2] for x in bn]:
@@ -712,6 +804,14 @@ def check_case(info, kind, req, optname, kw, rec, text_alpha, maxlen):
     if mark_seen:
         rec.witness("mark attachment present in a text")
 
+    # GDEF glyph classes of the glyphs texts can reach, by name
+    if info.hbf.face.has_layout_glyph_classes and "GDEF" not in drop:
+        for nm in sorted((requested_glyphs | used_glyphs | {info.cm[c] for c in retained if c in info.cm}) & set(new_order)):
+            ca = info.hbf.face.get_layout_glyph_class(info.index[nm])
+            cb = hb2.face.get_layout_glyph_class(new_index[nm])
+            if ca != cb and not (kind in ("glyphs", "gids") and not closure_on):
+                rec.violation("gdef:glyph-class-changed" + tag, "%s: glyph %r has GDEF class %s in the original, %s in the subset" % (where, nm, ca, cb))
+
     # glyphs that must survive: requested, produced by shaping, and what they are built from
     required = set(requested_glyphs) | used_glyphs
     todo = list(required)
@@ -721,18 +821,22 @@ def check_case(info, kind, req, optname, kw, rec, text_alpha, maxlen):
             if c not in required:
                 required.add(c)
                 todo.append(c)
-    for g in sorted(required):
+    for g in sorted(required - requested_glyphs - used_glyphs):
         if g not in new_index:
             rec.violation("closure:component-or-layer-missing" + tag, "%s: glyph %r (component / colour layer of a kept glyph) not in the subset" % (where, g))
 
     # ---- (3) outlines and advances by name ----------------------------------------------------------------
+    emptied = set()
     for li in range(len(info.locs)):
         hb2.set_location(info.locs[li])
         for gid, nm in enumerate(new_order):
+            if nm in emptied:
+                continue
             oa, adva = info.glyph(li, nm)
             ob, advb = hb2.outline(gid), hb2.h_advance(gid)
-            if retain and nm not in required and not ob and advb == 0 and (oa or adva):
-                continue  # emptied in place
+            if retain and li == 0 and nm not in required and not ob and advb == 0 and (oa or adva):
+                emptied.add(nm)  # emptied in place (decided at the default location)
+                continue
             if nm == info.notdef and gid == 0 and notdef_glyph and not notdef_outline:
                 # "--no-notdef-outline: when including a '.notdef' glyph, remove its outline" (also when requested)
                 if ob:
@@ -743,11 +847,15 @@ def check_case(info, kind, req, optname, kw, rec, text_alpha, maxlen):
                 rec.violation("outline" + tag, "%s: glyph %r location %s: %s" % (where, nm, info.locs[li], msg),
                               observed=[geom._round_contour(c) for c in ob][:4], expected=[geom._round_contour(c) for c in oa][:4])
             if adva != advb:
-                rec.violation("advance" + tag, "%s: glyph %r location %s: advance %s -> %s" % (where, nm, info.locs[li], adva, advb))
+                cls = "advance"
+                if nm == info.notdef and gid == 0 and li and notdef_glyph and not notdef_outline and "gvar" in info.tables and "HVAR" not in info.tables:
+                    cls = "advance:emptied-notdef-loses-gvar-advance-variation"
+                rec.violation(cls + tag, "%s: glyph %r location %s: advance %s -> %s" % (where, nm, info.locs[li], adva, advb))
     hb2.set_location({})
 
     # ---- (4) structure of the result ------------------------------------------------------------------------
     structural_scan(info, r, sub, sub_order, new_order, where, tag, rec)
+    container_check(info, data, okw, where, tag, rec)
     option_checks(info, r, sub, sub_order, new_order, okw, where, tag, rec, hb2, required)
 
     # ---- witnesses ------------------------------------------------------------------------------------------
@@ -855,6 +963,153 @@ def structural_scan(info, r, sub, sub_order, new_order, where, tag, rec):
                     rec.violation("dangling-glyph-reference:" + ttag + tag, "%s: in-memory table %s still names removed glyphs %s" % (where, ttag, bad[:5]))
 
 
+def ref_max_context(font):
+    """OS/2 usMaxContext from its definition in the OpenType specification: single / multiple /
+    alternate substitution and single positioning 1, pair positioning 2, ligature = number of
+    components, contextual = input sequence, chaining = input + lookahead, reverse chaining =
+    1 + lookahead; attachment lookups define no context.  Lengths are taken from the decoded
+    lists, not from the count fields."""
+    best = 0
+    for tag in ("GSUB", "GPOS"):
+        if tag not in font or not font[tag].table.LookupList:
+            continue
+        for lk in font[tag].table.LookupList.Lookup:
+            for st in lk.SubTable:
+                if hasattr(st, "ExtSubTable"):
+                    st = st.ExtSubTable
+                cls = type(st).__name__
+                fmt = getattr(st, "Format", 1)
+                if cls in ("SingleSubst", "MultipleSubst", "AlternateSubst", "SinglePos"):
+                    best = max(best, 1)
+                elif cls == "PairPos":
+                    best = max(best, 2)
+                elif cls == "LigatureSubst":
+                    for ligs in st.ligatures.values():
+                        for lig in ligs:
+                            best = max(best, len(lig.Component) + 1)
+                elif cls == "ReverseChainSingleSubst":
+                    best = max(best, 1 + len(st.LookAheadCoverage))
+                elif cls in ("ContextSubst", "ContextPos", "ChainContextSubst", "ChainContextPos"):
+                    chain = cls.startswith("Chain")
+                    if fmt == 3:
+                        if chain:
+                            best = max(best, len(st.InputCoverage) + len(st.LookAheadCoverage))
+                        else:
+                            best = max(best, len(st.Coverage))
+                    else:
+                        rules = []
+                        _collect_rules(st, rules)
+                        for r in rules:
+                            seq = getattr(r, "Input", None)
+                            if seq is None:
+                                seq = getattr(r, "Class", [])
+                            n = len(seq) + 1
+                            if chain:
+                                n += len(r.LookAhead)
+                            best = max(best, n)
+    return best
+
+
+def _collect_rules(obj, out, depth=0):
+    if isinstance(obj, (list, tuple)):
+        for v in obj:
+            _collect_rules(v, out, depth + 1)
+        return
+    d = getattr(obj, "__dict__", None)
+    if not d or depth > 6:
+        return
+    name = type(obj).__name__
+    if name.endswith("Rule") and not name.endswith("RuleSet"):
+        out.append(obj)
+        return
+    for k, v in d.items():
+        if k in ("Coverage", "ClassDef", "BacktrackClassDef", "InputClassDef", "LookAheadClassDef", "reader", "font"):
+            continue
+        if isinstance(v, (list, tuple)) or hasattr(v, "__dict__"):
+            _collect_rules(v, out, depth + 1)
+
+
+def colr_description(font):
+    """base glyph name -> colour description with palette indices resolved to colours of
+    palette 0 (so that CPAL pruning / renumbering is seen through)."""
+    if "COLR" not in font:
+        return {}
+    colr = font["COLR"]
+    pal = []
+    if "CPAL" in font and font["CPAL"].palettes:
+        pal = [(c.red, c.green, c.blue, c.alpha) for c in font["CPAL"].palettes[0]]
+
+    def color(i):
+        return "foreground" if i == 0xFFFF else (pal[i] if i < len(pal) else "palette-index-out-of-range:%d" % i)
+
+    out = {}
+    if colr.version == 0:
+        for g, layers in colr.ColorLayers.items():
+            out[g] = ["v0"] + [(l.name, color(l.colorID)) for l in layers]
+        return out
+    from fontTools.colorLib.unbuilder import unbuildColrV1
+
+    tb = colr.table
+    if tb.BaseGlyphRecordArray:
+        recs = tb.LayerRecordArray.LayerRecord
+        for r in tb.BaseGlyphRecordArray.BaseGlyphRecord:
+            out[r.BaseGlyph] = ["v0"] + [(recs[i].LayerGlyph, color(recs[i].PaletteIndex)) for i in range(r.FirstLayerIndex, r.FirstLayerIndex + r.NumLayers)]
+
+    def resolve(p):
+        if isinstance(p, dict):
+            return {k: (color(v) if k == "PaletteIndex" else resolve(v)) for k, v in sorted(p.items())}
+        if isinstance(p, (list, tuple)):
+            return [resolve(v) for v in p]
+        return p
+
+    if tb.BaseGlyphList:
+        for g, paint in unbuildColrV1(tb.LayerList, tb.BaseGlyphList).items():
+            out[g] = ["v1", resolve(paint)]
+    return out
+
+
+def container_check(info, data, okw, where, tag, rec):
+    """the saved subset is a valid sfnt whose redundant fields agree with its own data, read by
+    the fontTools-free reader oracles.otspec (as in C04): directory, checksums, padding; glyph
+    count and loca format always; with --recalc-bounds every recomputable head/maxp/hhea field."""
+    import struct
+
+    from . import otspec
+
+    try:
+        c = otspec.parse_container(data)
+    except (otspec.OTSpecError, struct.error) as e:
+        rec.violation("container:unreadable" + tag, "%s: %s" % (where, e))
+        return
+    seen = set()
+    for p in c.problems:
+        code = p.split(":", 1)[0]
+        if code not in seen:
+            seen.add(code)
+            rec.violation("container:" + code + tag, "%s: otspec: %s" % (where, p))
+    T = c.tables
+    problems = []
+    glyphs = None
+    try:
+        if "glyf" in T and "loca" in T and "head" in T:
+            glyphs = otspec.glyf_glyphs(T, problems)
+        D = otspec.recompute_derived(T, glyphs)
+        S = otspec.stored_derived(T, glyphs)
+    except (otspec.OTSpecError, struct.error) as e:
+        rec.violation("container:derived-unreadable" + tag, "%s: %s" % (where, e))
+        return
+    for p in problems + D["problems"]:
+        rec.violation("container:" + p.split(":", 1)[0] + tag, "%s: %s" % (where, p))
+    keys = ["numGlyphs", "head.indexToLocFormat"]
+    if okw.get("recalc_bounds") and glyphs is not None and "fvar" not in T:
+        keys = [k for k in S if k in D]
+    for k in keys:
+        if k in S and k in D and S[k] != D[k]:
+            rec.violation("container:derived:" + k + tag, "%s: stored %s = %r, recomputed from the saved data %r" % (where, k, S[k], D[k]))
+    if len(keys) > 2:
+        rec.witness("recalculated derived fields verified by otspec")
+
+
 def referenced_name_ids(font):
     ids = set()
     if "fvar" in font:
@@ -956,6 +1211,35 @@ def option_checks(info, r, sub, sub_order, new_order, okw, where, tag, rec, hb2,
             rec.violation("option:recalc-bounds:head-bbox" + tag, "%s: head bbox %s, union of glyph control boxes %s" % (where, got, box))
         else:
             rec.witness("recalculated head bbox verified")
+    if okw.get("recalc_max_context") and "OS/2" in sub:
+        exp = ref_max_context(sub)
+        if sub["OS/2"].usMaxContext != exp:
+            cls = "option:recalc-max-context"
+            if sub["OS/2"].usMaxContext > exp and sub["OS/2"].usMaxContext <= ref_max_context(info.font):
+                cls += ":counts-lookups-pruned-afterwards"
+            rec.violation(cls + tag, "%s: usMaxContext %s, longest context of the subset's lookups %s" % (where, sub["OS/2"].usMaxContext, exp))
+        elif exp >= 2:
+            rec.witness("recalculated usMaxContext verified")
+    if info.colr_desc and "COLR" not in okw.get("drop_tables", DEFAULT_DROP):
+        # colour glyphs reachable from the request: same layers / paint graph and colours, by name
+        got = colr_description(sub)
+        tr = {a: b for a, b in zip(sub_order, new_order)}
+
+        def rename(p):
+            if isinstance(p, dict):
+                return {k: (tr.get(v, v) if k == "Glyph" else rename(v)) for k, v in p.items()}
+            if isinstance(p, list):
+                return [rename(v) for v in p]
+            if isinstance(p, tuple) and len(p) == 2 and isinstance(p[0], str):
+                return (tr.get(p[0], p[0]), p[1])
+            return p
+
+        got = {tr.get(g, g): rename(d) for g, d in got.items()}
+        for g in sorted(set(info.colr_desc) & required):
+            if got.get(g) != info.colr_desc[g]:
+                rec.violation("colr:description-changed" + tag, "%s: colour glyph %r: original %s, subset %s" % (where, g, info.colr_desc[g], got.get(g)))
+            else:
+                rec.witness("COLR description of a kept glyph verified")
     if okw.get("recalc_average_width") and "OS/2" in sub:
         adv = [hb2.h_advance(g) for g in range(n)]
         nz = [a for a in adv if a > 0]
